@@ -65,7 +65,7 @@ theorem matchSteps_hop (g : Graph) (q : S2.Query) (hwf : q.wf = true) (a : NodeR
         (farNodes g q e).map (fun b => (e, b)))).map (fun eb => (hopState q a eb.1 eb.2, [a.id, eb.2.id], [eb.1.id]))) := by
   unfold S2.Query.wf at hwf
   simp only [Bool.and_eq_true, bne_iff_ne, ne_eq] at hwf
-  obtain ⟨⟨⟨⟨⟨⟨⟨har, hab⟩, hrb⟩, _⟩, _⟩, _⟩, _⟩, _⟩ := hwf
+  obtain ⟨⟨⟨⟨har, hab⟩, hrb⟩, _⟩, _⟩ := hwf
   have hra : (q.r == q.a) = false := by
     cases h : q.r == q.a with
     | false => rfl
@@ -161,7 +161,7 @@ theorem hopEnv_lookup (q : S2.Query) (hwf : q.wf = true) (a : NodeRec) (e : Edge
     (hopState q a e b).env.lookup q.b = some (.node b.id) := by
   unfold S2.Query.wf at hwf
   simp only [Bool.and_eq_true, bne_iff_ne, ne_eq] at hwf
-  obtain ⟨⟨⟨⟨⟨⟨⟨har, hab⟩, hrb⟩, _⟩, _⟩, _⟩, _⟩, _⟩ := hwf
+  obtain ⟨⟨⟨⟨har, hab⟩, hrb⟩, _⟩, _⟩ := hwf
   have h1 : (q.a == q.b) = false := by simpa using hab
   have h2 : (q.a == q.r) = false := by simpa using har
   have h3 : (q.r == q.b) = false := by simpa using hrb
